@@ -134,6 +134,9 @@ def app_request(app, dest_realm, timeout, result: dict, session="a;1"):
     return result
 
 
+DEFAULT_TRANSPORT = "tcp"      # a shard run "over SCTP" switches this (vf.worker, spec["transport"])
+
+
 class World:
     """cfg keys (all optional):
        peers: [{name, realm, ip, port, persistent, default, always_reconnect, reconnect_wait, timers:{...}}]
@@ -146,12 +149,15 @@ class World:
         self.h = Harness(debug_logging=bool(cfg.get("debug")), poll=cfg.get("poll", 0.005))
         h = self.h
         listen = cfg.get("listen", True)
+        self.transport = cfg.get("transport") or DEFAULT_TRANSPORT
+        sctp = self.transport == "sctp"
         self.node = h.make_node(NODE_HOST, REALM, ip_addresses=("10.0.0.1",) if listen else None,
-                                tcp_port=3868 if listen else None, **cfg.get("node", {}))
+                                tcp_port=3868 if listen and not sctp else None,
+                                sctp_port=3868 if listen and sctp else None, **cfg.get("node", {}))
         self.peers = {}
         for i, pc in enumerate(cfg.get("peers", [])):
             ip = pc.get("ip", f"10.1.0.{i + 1}")
-            uri = f"aaa://{pc['name']}:{pc.get('port', 3868)}"
+            uri = f"aaa://{pc['name']}:{pc.get('port', 3868)}" + (";transport=sctp" if sctp else "")
             p = self.node.add_peer(uri, pc.get("realm", REALM), ip_addresses=[ip] if pc.get("addr", True) else [],
                                    is_persistent=pc.get("persistent", False), is_default=pc.get("default", False))
             for k in ("always_reconnect", "reconnect_wait"):
